@@ -265,6 +265,24 @@ func ValidateOn(s *njs.Schema, doc string) Obs {
 	return Safe(func() error { return s.Validate(json.New("doc", doc)) })
 }
 
+// ValidateOnChecked: Check(), Len() or both are called on the Document object before it is
+// validated (which of the three is a function of the text length).
+func ValidateOnChecked(s *njs.Schema, doc string) Obs {
+	return Safe(func() error {
+		d := json.New("doc", doc)
+		switch len(doc) / 8 % 3 {
+		case 0:
+			_ = d.Check()
+		case 1:
+			_, _ = d.Len()
+		default:
+			_ = d.Check()
+			_, _ = d.Len()
+		}
+		return s.Validate(d)
+	})
+}
+
 // Validate builds a fresh schema and validates one document.
 func Validate(sp Spec, doc string) Obs {
 	s, o := Build(sp)
